@@ -3,8 +3,8 @@ import json
 
 from .. import enginecheck
 
-QUICK = ['a,r,n,n', 'r,a,n', 'a,L,n,n', 'a,A2L,n,a,n', 'a,A2r,b', 'A2001,n', 'a,A11G,b', 'a,r,a,b,c']
-THOROUGH = ['a,r,X,n,n', 'a,A2L,X,b', 'a,a,A3r,b,b', 'A2,r,b,n', 'a,L,a,A2,b', 'a,A2r,a,X,B,c', 'r:u,a,a:u,b,b:u']
+QUICK = ['a,r,n,n', 'r,a,n', 'a,L,n,n', 'a,A2L,n,a,n', 'a,A2r,b', 'A2001,n', 'a,A11G,b', 'a,r,a,b,c', 'a,F2,n,n', 'a,F2,a,n,n,n', 'F2,a,X,n,n,n']
+THOROUGH = ['F3,a,X,b,b', 'a,F2,A2,b,b', 'F2,a,a,X,B,c', 'a,r,X,n,n', 'a,A2L,X,b', 'a,a,A3r,b,b', 'A2,r,b,n', 'a,L,a,A2,b', 'a,A2r,a,X,B,c', 'r:u,a,a:u,b,b:u']
 DIFF = [
     dict(skel='a,r,a,n,n,n,c', sizes=[10, 2 ** 30 + 5, 20], budgets=[]),
     dict(skel='a,A2,b,c', sizes=[100, 200, 300], budgets=[10 ** 6]),
@@ -17,11 +17,16 @@ def main(tier, seed):
     skels = QUICK + (THOROUGH if tier == 'thorough' else [])
     jobs = []
     for s in skels:
-        extra = dict(sizecap=32 * 2 ** 20, cfg=dict(eager_div=6)) if 'X' in s else {}
+        extra = dict(sizecap=32 * 2 ** 20, cfg=dict(eager_div=6)) if ('X' in s or 'F' in s) else {}
+        if 'F' in s:
+            # failed batches that stay inside one block (sizes <= 4 KiB): cheap, explored first
+            jobs.insert(0, dict(skel=s, backend='fd', consistency='StrictlyAtOnce', sizecap=4096, cfg=dict(eager_div=6)))
+            if tier == 'quick' and 'X' in s:
+                continue
         jobs.append(dict(skel=s, backend='fd', consistency='StrictlyAtOnce', **extra))
     jobs += [dict(skel=s, backend='mmap', consistency='StrictlyAtOnce') for s in skels[:5]]
     bounds = dict(histories='skeletons %s: r = oversized append (payload in (2^30-256, 2^30+2^20]), L = topic name of 240 bytes, A<n>r = batch whose last entry is oversized, A<n>L = batch on the long topic, A2001 = 2001 entries, A11G = 11 entries with > 10 GiB in total' % skels,
-                  payload_size='accepted entries 0 .. 2^30-256', faults='none (I/O faults need the replay hook and are not part of this check yet)',
+                  payload_size='accepted entries 0 .. 2^30-256', faults='F<n> = batch of n entries with one injected io_uring write-completion failure at a solver-chosen position (the data reached the file, the completion reports an error); file-creation and flush faults are not explored yet',
                   wall_budget_s=240 if tier == 'quick' else 2400)
     return enginecheck.run('C04', tier, seed, jobs, enginecheck.KINDS['C04'], bounds['wall_budget_s'], DIFF, bounds,
                            cfg=dict(oracles=['C01', 'C15']))
